@@ -188,8 +188,8 @@ func (k *checker) account(id string, c *ld.Case, out outcome, origin string) {
 	}
 	if len(out.failures) == 0 && out.compared == len(formats) {
 		s.Add("held", 1)
-		if s.WantSample() && len(out.rendered["yaml"]) < 1500 {
-			s.Sample(map[string]any{"case": id, "compose_files": c.ComposeFiles, "input": c.Files[c.ComposeFiles[0]], "options": c.Opts.String(),
+		if s.WantSample() {
+			s.Sample(map[string]any{"case": id, "compose_files": c.ComposeFiles, "input": clip(c.Files[c.ComposeFiles[0]], 1500), "options": c.Opts.String(),
 				"verdict": "yaml and json renderings reloaded to an equal project and re-rendered to identical bytes"})
 		}
 	}
@@ -250,6 +250,13 @@ func (k *checker) model(id string, m *gen.Model, opts ld.Opts) {
 	}
 }
 
+func clip(x string, n int) string {
+	if len(x) > n {
+		return x[:n] + "\n... (clipped)"
+	}
+	return x
+}
+
 func hasFailure(out outcome, sig string) bool {
 	for _, f := range out.failures {
 		if f.sig() == sig {
@@ -276,7 +283,9 @@ func (k *checker) attribute(m *gen.Model, opts ld.Opts, f failure) ([]string, *g
 		return last
 	}
 	// culprits named by the failure text first, then most recently confirmed first
-	norm := func(x string) string { return strings.ToLower(strings.NewReplacer("_", "", ".", "", "-", "").Replace(x)) }
+	norm := func(x string) string {
+		return strings.ToLower(strings.NewReplacer("_", "", ".", "", "-", "").Replace(x))
+	}
 	text := norm(f.Class + " " + f.Detail)
 	names := func(c []string, txt string) bool {
 		for _, p := range c {
